@@ -14,6 +14,8 @@ RULE = ("auth (L1): the real handlers obtained from the app's MsgServiceRouter (
         "authtx (L2): the full app through BeginBlock/DeliverTx/EndBlock/Commit with signed zero-fee transactions, one per block: every privileged handler (29: MsgUpdateSwapFeeParams is "
         "subject to the 0.1-rowan ante floor and left to L1) direct and wrapped in authz.MsgExec by its role holder and by a stranger, plus spoofed (msg.Signer = a role holder, "
         "transaction signed by a stranger; directly and as MsgExec without grant); then the table evolving through AddAccount/RemoveAccount transactions. Hash over all stores but auth. "
+        "Two worlds per run and family (a `reset` line between them): (0) every role store populated, (1) the single-value admin field EMPTY (oracle admin_address \"\", as in the default oracle genesis; no message can "
+        "set it) and a clp whitelist listing only a stranger (the clp genesis refuses an empty one) - in world 1 both families run the full matrix handler x 14 accounts, so every role holder tries the messages of every other role. "
         "Worlds: the three role stores come from the genesis file (InitGenesis): x/admin entries for the set-up roles in canonical lower case plus, each with probability 3/4, entries in other "
         "spellings (MARGIN for #11 [always], ADMIN for #12, CLPDEX for #13, TOKENREGISTRY for #5 in upper case; PMTPREWARDS for a non-address; ETHBRIDGE for a mixed-case, invalid spelling); the oracle admin "
         "and one clp-whitelist member in upper or lower case. The cfg lines give the x/admin table from the RAW store keys. Directed: a genesis upper-case entry is used, 'removed' under the canonical "
@@ -45,6 +47,7 @@ ASSUMPTIONS = [
     "the canonical string of the account a spelling denotes (AccAddressFromBech32(..).String()) is an environment value supplied by the harness from cosmos-sdk's bech32 code",
 ]
 UNPROVED = [
+    "an ABSENT clp whitelist key is covered by the theorem absent_whitelist_authorises_nobody only: the clp genesis panics on an empty whitelist, so no world has it",
     "entries put into the role table by genesis (not by a message) may be spelled non-canonically; they never authorise anyone (fact adminCompare = stringEq, exercised by the genesis worlds) and "
     "cannot be removed by message (F24 repair rejects the spelling); export/import round trips are exercised for x/admin only, not for the oracle admin / clp whitelist",
     "that each real handler is an instance of the abstract 'statements; guard; body' model with the recorded statement kinds is established by the syntactic translator and "
